@@ -173,7 +173,11 @@ impl<'a> It<'a> {
 }
 
 /// One walk with deletion set `dset` (ids). Returns Err(class, detail) on a violation.
-pub fn walk(x: &[u8], kind: Kind, dset: &[u32], warm: bool) -> Result<(u64, u64), (String, String)> {
+/// `pre`: 0 = a fresh parse; 1 = "warm" (already edited once: pointer-free, question memoised); 2 = the question
+/// was deleted by an earlier walk over the question section of the same object
+pub fn walk(x: &[u8], kind: Kind, dset: &[u32], pre: u8) -> Result<(u64, u64), (String, String)> {
+    let warm = pre == 1;
+    let qgone = pre == 2 && kind != Kind::Question;
     let before = refparse(x, RELAXED).map_err(|_| ("harness".to_string(), "start not well-formed".to_string()))?;
     let all = ids_of(&before.msg, kind);
     let n = all.len() as u64;
@@ -183,6 +187,10 @@ pub fn walk(x: &[u8], kind: Kind, dset: &[u32], warm: bool) -> Result<(u64, u64)
         // a packet that was already edited once (pointer-free, question memoised), as in a real hook chain
         pp.recompute().map_err(|e| ("harness".to_string(), format!("recompute failed: {}", e)))?;
         let _ = pp.question_raw0();
+    }
+    if qgone {
+        let mut q = pp.into_iter_question().ok_or(("harness".to_string(), "no question to delete first".to_string()))?;
+        q.delete().map_err(|e| ("delete-failed".to_string(), format!("delete of the question (first walk) failed: {}", e)))?;
     }
     let mut deleted: Vec<u32> = vec![];
     let mut seen: Vec<u32> = vec![];
@@ -263,6 +271,9 @@ pub fn walk(x: &[u8], kind: Kind, dset: &[u32], warm: bool) -> Result<(u64, u64)
     }
     // everything else is untouched: compare whole messages
     let mut want = before.msg.clone();
+    if qgone {
+        want.question.clear();
+    }
     match kind {
         Kind::Question => want.question.retain(|q| !dset.contains(&(q.qtype as u32))),
         Kind::Answer => want.sec[0].retain(|r| !dset.contains(&r.ttl)),
@@ -292,16 +303,22 @@ pub fn walk(x: &[u8], kind: Kind, dset: &[u32], warm: bool) -> Result<(u64, u64)
 }
 
 fn one(ctx: &mut Ctx, x: &[u8], kind: Kind, dset: &[u32], desc: &str) {
-    one_w(ctx, x, kind, dset, desc, false);
-    one_w(ctx, x, kind, dset, desc, true);
+    one_w(ctx, x, kind, dset, desc, 0);
+    one_w(ctx, x, kind, dset, desc, 1);
+    if kind != Kind::Question {
+        one_w(ctx, x, kind, dset, desc, 2);
+    }
 }
 
-fn one_w(ctx: &mut Ctx, x: &[u8], kind: Kind, dset: &[u32], desc: &str, warm: bool) {
+fn one_w(ctx: &mut Ctx, x: &[u8], kind: Kind, dset: &[u32], desc: &str, pre: u8) {
     ctx.evaluations += 1;
     let xv = x.to_vec();
     let dv = dset.to_vec();
-    let desc = &format!("{}{}", desc, if warm { " (already edited: pointer-free, question memoised)" } else { "" });
-    match guarded(crate::mon::runaway_budget(x.len()) * 64, move || walk(&xv, kind, &dv, warm)) {
+    let desc = &format!("{}{}", desc, [" ", " (already edited: pointer-free, question memoised)", " (question deleted by an earlier walk)"][pre as usize]);
+    if pre == 2 {
+        ctx.count("walks_after_the_question_was_deleted");
+    }
+    match guarded(crate::mon::runaway_budget(x.len()) * 64, move || walk(&xv, kind, &dv, pre)) {
         Err(p) => {
             let k = if p.is_budget() { "non-termination" } else { "panic" };
             ctx.violation("C11", format!("walk|{}|{}", k, p.class()), format!("{} delete {:?}: {}", desc, dset, p.msg), x);
